@@ -116,6 +116,8 @@ func genCfg(r *wire.Rng, wide bool) rawCfg {
 		c.ProxyUID, c.ProxyGID = joinList(r, pickSome(r, idPool, 3)), ""
 	case 2:
 		c.ProxyUID, c.ProxyGID = "", joinList(r, pickSome(r, idPool, 3))
+	case 3:
+		c.ProxyUID, c.ProxyGID = joinList(r, pickSome(r, idPool, 7)), joinList(r, pickSome(r, idPool, 5))
 	default:
 		c.ProxyUID, c.ProxyGID = joinList(r, pickSome(r, idPool, 3)), joinList(r, pickSome(r, idPool, 3))
 	}
@@ -178,9 +180,10 @@ func genCfg(r *wire.Rng, wide bool) rawCfg {
 		c.OwnerGroupsInclude = joinList(r, pickSome(r, groupPool, 3))
 		c.OwnerGroupsExclude = joinList(r, pickSome(r, groupPool, 3))
 	case 4:
-		if r.Chance(1, 8) { // too many groups: Validate refuses
+		if r.Chance(1, 4) { // at the limit (64: accepted) and over it (65: Validate refuses)
 			var g []string
-			for i := 0; i < 65; i++ {
+			n := 64 + r.Intn(2)
+			for i := 0; i < n; i++ {
 				g = append(g, strconv.Itoa(2000+i))
 			}
 			c.OwnerGroupsInclude = strings.Join(g, ",")
@@ -196,8 +199,8 @@ func genCfg(r *wire.Rng, wide bool) rawCfg {
 	if wide {
 		if r.Chance(1, 3) {
 			c.Mode = "TPROXY"
-			if r.Chance(1, 5) {
-				c.TProxyMark = "1234"
+			if r.Chance(1, 3) {
+				c.TProxyMark = wire.Pick(r, []string{"1234", "1", "1338", "4294967295", "65536", strconv.Itoa(1 + r.Intn(100000))})
 			}
 		} else if r.Chance(1, 10) {
 			c.Mode = wire.Pick(r, []string{"", "tproxy", "NONE"})
@@ -243,6 +246,10 @@ func gen(stream string, seed uint64, n int, path string) {
 	root := wire.NewRng(seed*0x9e3779b97f4a7c15 + uint64(len(stream)))
 	for i := 0; i < n; i++ {
 		r := root.Fork()
+		if stream == "apply" {
+			genApply(r, i, out)
+			continue
+		}
 		wide := stream != "rules4" && stream != "packets4" && i%3 != 0
 		c := genCfg(r, wide)
 		out.Line("case", strconv.Itoa(i), stream)
@@ -332,6 +339,35 @@ func genEnvCase(r *wire.Rng, c rawCfg, out *wire.Out) {
 	}
 	if e.dual {
 		e.via["DualStack"] = wire.Pick(r, []string{"", "", "env", "alt"})
+	}
+	// rarely: the break-glass binary flag (Validate accepts "", legacy, nft), a failing InterfaceAddrs,
+	// addresses that are not *net.IPNet, env-only variables set to the empty string, bool spellings
+	if r.Chance(1, 12) {
+		e.binary = wire.Pick(r, []string{"legacy", "nft", "iptables-nft", "LEGACY"})
+	}
+	if r.Chance(1, 40) {
+		e.addrErr = true
+	}
+	if r.Chance(1, 6) {
+		i := r.Intn(len(e.addrs) + 1)
+		e.addrs = append(e.addrs[:i], append([]string{"ipaddr:" + wire.Pick(r, addrPool[:4])}, e.addrs[i:]...)...)
+	}
+	e.raw, e.emptyEnv = map[string]string{}, map[string]bool{}
+	if e.vals.OwnerGroupsExclude == "" && r.Chance(1, 6) {
+		e.emptyEnv[envOwnerGroupsExclude] = true // "" is also the default
+	}
+	if e.vals.OwnerGroupsInclude == "" && r.Chance(1, 8) {
+		e.emptyEnv[envOwnerGroupsInclude] = true // set to "": capture no group at all (NOT the default "*")
+	}
+	for _, f := range []string{"RedirectDNS", "DropInvalid", "CaptureAllDNS"} {
+		if r.Chance(1, 5) && e.via[f] != "" { // through an environment variable, in another spelling
+			cur, _ := e.value(f)
+			if cur == "true" {
+				e.raw[f] = wire.Pick(r, []string{"1", "t", "T", "TRUE", "True"})
+			} else {
+				e.raw[f] = wire.Pick(r, []string{"0", "false", "F", "FALSE", "junk", "yes"})
+			}
+		}
 	}
 	e.vals.IPv6 = false // ignored: the family comes from getLocalIP
 	e.uid = expectedUID(e.envoyUser)
